@@ -132,6 +132,91 @@ theorem after_eof (env : Env) (G : NumKind → Grammar) (hG : ∀ k, GrammarOK (
   rw [a, b]
   exact ⟨s1, rfl, hend⟩
 
+/-! ## the spec itself loses nothing -/
+
+/-- a line returned by the spec (without CR stripping) is exactly the consumed bytes minus the delimiter: either
+`consumed = line ++ [delim]` with no delimiter inside the line, or the unterminated last line -/
+theorem spec_line_exact (G : NumKind → Grammar) (d : Byte) (rest b : List Byte) (n : Nat)
+    (h : specOp G (.readLine d false) rest = (.bytes b, n)) :
+    (rest.take n = b ++ [d] ∧ idxOf (· == d) b = none) ∨ (b = rest ∧ n = rest.length ∧ idxOf (· == d) rest = none) := by
+  rw [specOp_readLine] at h
+  split at h
+  · simp at h
+  · cases hi : idxOf (· == d) rest with
+    | none =>
+      rw [hi] at h
+      simp only [Prod.mk.injEq, Res.bytes.injEq] at h
+      right; exact ⟨h.1.symm, h.2.symm, rfl⟩
+    | some i =>
+      rw [hi] at h
+      simp only [Bool.false_and, Bool.false_eq_true, ↓reduceIte, Nat.sub_zero, Prod.mk.injEq, Res.bytes.injEq] at h
+      obtain ⟨h1, h2⟩ := h
+      subst h1 h2
+      left
+      obtain ⟨s1, s2⟩ := idxOf_some_spec hi
+      have hlt := idxOf_some_lt hi
+      refine ⟨?_, s1⟩
+      have hx : rest.getD i 0 = d := by simpa using s2
+      rw [List.take_add_one]
+      have : rest[i]? = some d := by
+        rw [List.getD_eq_getElem?_getD, List.getElem?_eq_getElem hlt] at hx
+        rw [List.getElem?_eq_getElem hlt]; simpa using hx
+      rw [this]; rfl
+
+theorem mem_takeWhile_pred {p : Byte → Bool} {l : List Byte} {b : Byte} (h : b ∈ l.takeWhile p) : p b = true := by
+  induction l with
+  | nil => simp at h
+  | cons a l ih =>
+    by_cases ha : p a
+    · simp [List.takeWhile, ha] at h
+      rcases h with rfl | h
+      · exact ha
+      · exact ih h
+    · simp [List.takeWhile, ha] at h
+
+/-- a word returned by the spec is exactly the consumed bytes minus the leading delimiters, and is followed by a
+delimiter or the end of the input -/
+theorem spec_word_exact (G : NumKind → Grammar) (d : Byte → Bool) (rest w : List Byte) (n : Nat)
+    (h : specOp G (.readDelimited d) rest = (.bytes w, n)) :
+    rest.take n = rest.takeWhile d ++ w ∧ (∀ b ∈ w, d b = false) ∧ w ≠ [] ∧
+    (rest.drop n = [] ∨ ∃ c t, rest.drop n = c :: t ∧ d c = true) := by
+  rw [specOp_readDelimited] at h
+  split at h
+  · simp at h
+  · rename_i hne
+    simp only [Prod.mk.injEq, Res.bytes.injEq] at h
+    obtain ⟨h1, h2⟩ := h
+    have hsplit : rest = rest.takeWhile d ++ rest.dropWhile d := (List.takeWhile_append_dropWhile).symm
+    have hsplit2 : rest.dropWhile d = w ++ (rest.dropWhile d).dropWhile (fun b => !d b) := by
+      rw [← h1]; exact (List.takeWhile_append_dropWhile).symm
+    have hall : rest = rest.takeWhile d ++ (w ++ (rest.dropWhile d).dropWhile (fun b => !d b)) := by
+      rw [← hsplit2]; exact hsplit
+    have hn : n = (rest.takeWhile d ++ w).length := by rw [List.length_append, ← h2, h1]
+    refine ⟨?_, ?_, ?_, ?_⟩
+    · conv => lhs; rw [hall, ← List.append_assoc, hn, List.take_left]
+    · intro b hb
+      rw [← h1] at hb
+      have := mem_takeWhile_pred hb
+      simpa using this
+    · intro hw
+      rw [← h1] at hw
+      cases hd : rest.dropWhile d with
+      | nil => exact hne hd
+      | cons c t =>
+        have hc := dropWhile_head hd
+        rw [hd] at hw
+        simp [List.takeWhile, hc] at hw
+    · have hdrop : rest.drop n = (rest.dropWhile d).dropWhile (fun b => !d b) := by
+        conv => lhs; rw [hall, ← List.append_assoc, hn, List.drop_left]
+      rw [hdrop]
+      cases hd : (rest.dropWhile d).dropWhile (fun b => !d b) with
+      | nil => left; rfl
+      | cons c t =>
+        right
+        refine ⟨c, t, rfl, ?_⟩
+        have := dropWhile_head hd
+        simpa using this
+
 /-! ## termination -/
 
 /-- **shift_progress**: a `Shift` on a window that has not seen the end succeeds, keeps `Offset()`, shows the same
